@@ -344,7 +344,7 @@ def oracle_table(case):
         if "occupancy" in drop:
             for a in exp_atoms:
                 a["occ"] = None
-        text = atomtab.emit_cif(atoms4, "?", dialect={"drop": sorted(drop), "order": dia.get("order"),
+        text = atomtab.emit_cif(atoms4, "?", dialect={"drop": sorted(drop), "order": dia.get("order"), "numbers": dia.get("numbers"),
                                                      "label_seq": dia.get("label_seq") if ident != "label" else None})
         for mreq in [None] + (models if "pdbx_PDB_model_num" not in drop else []):
             s3 = read_text(text, "cif", mreq)
@@ -450,6 +450,8 @@ def classify(case):
     if case.get("dialect"):
         labs.append("cif-dialect")
         labs.append("cif-identity-" + case["dialect"].get("identity", "both"))
+        if case["dialect"].get("numbers") is not None:
+            labs.append("cif-numbers-with-exponents-and-signs")
         if case["dialect"].get("order") is not None:
             labs.append("cif-items-permuted")
     return bool(set(labs) - {"hetatm"}), labs
@@ -466,7 +468,9 @@ def st_cases():
                                       "drop": st.lists(st.sampled_from(OPTIONAL_ITEMS), max_size=5, unique=True),
                                       "order": st.one_of(st.none(), st.integers(0, 10 ** 6)),
                                       "identity": st.sampled_from(["both", "both", "auth", "label"]),
-                                      "label_seq": st.sampled_from([None, None, "author"])}))})
+                                      "label_seq": st.sampled_from([None, None, "author"]),
+                                      # numbers spelt as the CIF grammar allows besides fixed point: 1.2345e+01, 1.2345E1, +12.345, 12.34500
+                                      "numbers": st.sampled_from([None, 0, 1, 2, 3])}))})
 
 
 # items of atom_site the residue-level reader documents as optional (it has a default or a fallback for each)
